@@ -14,15 +14,16 @@ def getFrame (j : Json) : Except String Frame := do
     pure ⟨← getNat j "rows", ← getNat j "cols", s.map Int.toNat, d, ← getIntList j "data"⟩
 
 /-- stand-in for the encapsulated codecs: the model treats them as abstract -/
-def noCodec : CodecImpl := ⟨fun _ _ => .error .other, fun _ _ _ _ _ => .error .other⟩
+def noCodec : CodecImpl := ⟨fun _ _ _ _ _ => .error .other, fun _ _ _ _ _ => .error .other⟩
 
 def handlers : List (String × Handler) := [
   -- the translated decision tree with every input given explicitly (dtype facts as numpy reports them)
   ("encodeRouteRaw", fun j => do
     let r := encodeFrameRoute (← getStr j "ts") (← getInt j "ba") (← getInt j "bs") (← getStr j "pi") (← getInt j "pr")
       (← getOptInt j "planar") (← getInt j "shape0") (← getInt j "shape1") (← getInt j "shape2") (← getInt j "ndim")
-      (← getStr j "kind") (← getInt j "itemsize") (← getStr j "dtype") (← getInt j "max")
-    pure (exceptToJson (fun (i : Int) => (i : Json)) r)),
+      (← getStr j "kind") (← getInt j "itemsize") (← getStr j "dtype") (← getInt j "max") (← getInt j "min")
+    pure (exceptToJson (fun (v : Int × Int × Int × Int × Int × Int × Int) =>
+      intsToJson [v.1, v.2.1, v.2.2.1, v.2.2.2.1, v.2.2.2.2.1, v.2.2.2.2.2.1, v.2.2.2.2.2.2]) r)),
   ("decodeRouteRaw", fun j => do
     let r := decodeFrameRoute (← getBool j "enc") (← getInt j "ba") (← getInt j "samples") (← getStr j "pi")
       (← getInt j "pr") (← getOptInt j "planar")
